@@ -193,19 +193,20 @@ theorem pool_tear_witness :
 /-! ## the descending seek key -/
 
 /-- **a descending walk sees every row** (`build_query_options`: the reverse seek starts at
-`prefix ‖ 0xff × (MAX_PREFIX_SEARCH_SIZE − args_len)`): as long as every key of the searched family
-continues the prefix with at most `maxPre − argsLen` bytes, each `≤ 0xff`, no row lies above the seek
-key, so the view a descending walk has of the store is the store. (Keys are
+`prefix ‖ 0xff × (MAX_PREFIX_SEARCH_SIZE − args_len)`): as long as every key that starts with the
+prefix continues it with at most `maxPre − argsLen` bytes, each `≤ 0xff` (only the continuation is
+constrained, not the prefix), no row lies above the seek key, so the view a descending walk has of the store is the store. (Keys are
 `prefix-byte ‖ script ‖ 16 or 17 bytes`; with `maxPre = 65535` the bound holds for all scripts whose
 args are at most `65535 − 17` bytes longer than the searched args.) -/
 theorem desc_seek_covers (maxPre : Nat) (s : Store) (pre : List Nat) (argsLen : Nat)
-    (hk : ∀ e ∈ s, isPrefix pre e.1.bytes = true →
-      e.1.bytes.length ≤ pre.length + (maxPre - argsLen) ∧ ∀ x ∈ e.1.bytes, x ≤ 255) :
+    (hk : ∀ e ∈ s, ∀ r, e.1.bytes = pre ++ r → r.length ≤ maxPre - argsLen ∧ ∀ x ∈ r, x ≤ 255) :
     descView maxPre s pre argsLen = s :=
   descView_eq maxPre s pre argsLen hk
 
 def ffArgs : List Nat := List.replicate 17 255
 def ffStore : Store := append 1 1 [] ⟨0, 10, [⟨1, [⟨0, 4294967295⟩], [⟨5000, ⟨1, ffArgs⟩, none, []⟩, ⟨60, ⟨1, [255]⟩, none, []⟩]⟩]⟩
+
+example : descView 65535 ffStore (cellPrefix true ⟨1, []⟩) 0 = ffStore := by decide +kernel
 
 /-- not vacuous, and the class of the seeded change r5m2: with the real padding the descending search
 by the code hash (empty args) lists both cells; with a padding of 17 bytes (`maxPre = 17`) the cell
